@@ -178,6 +178,35 @@ def cyclic_project(rnd, idx):
     return [("lib.rs", "".join(src))]
 
 
+ATTR_NAMES = ["derive", "serde", "validate", "tauri::command", "command", "cfg", "cfg_attr", "doc", "allow", "specta::specta", "path", "test"]
+ATTR_FORMS = ["#[@N@]", "#[@N@ = \"Serialize\"]", "#[@N@ = 5]", "#[@N@()]", "#[@N@[Serialize, Deserialize]]", "#[@N@{Serialize}]", "#[@N@(= x)]", "#[@N@(Serialize = )]",
+              "#[@N@(,)]", "#[@N@(rename_all)]", "#[@N@(rename_all = )]", "#[@N@(test)]", "#[@N@ = concat!(\"a\", \"b\")]", "#[@N@(\"literal\")]", "#[@N@(a::b::c(d(e)))]",
+              "#[@N@(Serialize, Deserialize)]"]
+ATTR_PLACES = ["struct", "enum", "field", "variant", "fn", "param", "mod", "impl", "use", "tuple-struct", "unit-struct"]
+
+
+def attr_project(idx):
+    """every attribute name the analyser looks for, in every syntactic form an attribute can take (bare path, name = value, and
+    delimited token lists with anything inside), on every kind of item it visits; next to it an ordinary command / struct / event"""
+    n = ATTR_NAMES[idx % len(ATTR_NAMES)]
+    f = ATTR_FORMS[(idx // len(ATTR_NAMES)) % len(ATTR_FORMS)]
+    place = ATTR_PLACES[(idx // (len(ATTR_NAMES) * len(ATTR_FORMS))) % len(ATTR_PLACES)]
+    a = f.replace("@N@", n)
+    at = lambda pl: (a + "\n") if place == pl else ""
+    ai = lambda pl: (a + " ") if place == pl else ""
+    D = "#[derive(Serialize, Deserialize)]\n"
+    src = [HDR,
+           "%s%spub struct A%d {\n    %spub x: i32,\n    pub y: Option<B%d>,\n}\n\n" % (at("struct"), D, idx, ai("field"), idx),
+           "%s%spub enum B%d {\n    %sOne,\n    Two,\n}\n\n" % (D, at("enum"), idx, ai("variant")),
+           "%s%spub struct T%d(pub u8, pub String);\n\n%s%spub struct U%d;\n\n" % (at("tuple-struct"), D, idx, D, at("unit-struct"), idx),
+           "%s#[tauri::command]\npub fn ac_%d(%sa: A%d, t: T%d, u: U%d) -> Result<B%d, String> {\n    todo!()\n}\n\n" % (at("fn"), idx, ai("param"), idx, idx, idx, idx),
+           "%spub mod inner_%d {\n    use super::*;\n    %spub struct C%d {\n        pub z: A%d,\n    }\n    #[tauri::command]\n    pub fn not_top_level_%d() {}\n}\n\n" % (at("mod"), idx, D.replace("\n", "\n    "), idx, idx, idx),
+           "%simpl A%d {\n    pub fn helper(&self, app: AppHandle) {\n        app.emit(\"attr-ev-%d\", self.x).unwrap();\n    }\n}\n\n" % (at("impl"), idx, idx),
+           "%suse std::collections::BTreeSet;\n\n" % at("use"),
+           "pub fn ev_%d(app: AppHandle, p: A%d) {\n    app.emit(\"attr-%d\", p).unwrap();\n}\n" % (idx, idx, idx)]
+    return [("lib.rs", "".join(src))]
+
+
 NON_RUST = ["", "\n\n\n", "{", "}}}}", "fn", "#[tauri::command]", "#[tauri::command]\npub fn", "\"unterminated", "/* never closed", "'", "r#\"raw never closed",
             "<html><body>not rust</body></html>", "{\"json\": true}", "0x", "#!/bin/sh\necho hi\n", "\ufeff// BOM\nfn ok() {}", "fn a() { b( }", "struct S { a: }", "日本語のテキスト",
             "#[derive(Serialize)] struct", "pub fn f() -> { }", "impl", "fn f(a: i32, ) -> ) {}", "\\", "\x00\x01\x02", "fn main() { let s = \"\\u{110000}\"; }", "#[serde(rename = )] struct S;",
@@ -398,6 +427,16 @@ def run(tier):
     cyc_items = [("cyclic-%d" % i, cyclic_project(random.Random(common.seed() * 7919 + i), i)) for i in range(ncyc)]
     for k, (mode, via) in enumerate([("none", "cli"), ("zod", "cli"), ("none", "cli+viz"), ("zod", "cli+viz"), ("zod", "cli+verbose"), ("none", "driver")]):
         add("recursive-types", cyc_items[k::6] if tier != "quick" else cyc_items, mode, via=via, bsize=1 if "viz" in via else 8)
+    nattr = len(ATTR_NAMES) * len(ATTR_FORMS) * len(ATTR_PLACES)
+    attr_items = [("attr-form-%d" % i, attr_project(i)) for i in range(nattr)]
+    if tier == "quick":
+        off = common.seed() % 2
+        add("attribute-forms", attr_items[off::2], "zod" if off else "none", bsize=16)
+        add("attribute-forms", attr_items[1 - off::2], "none" if off else "zod", bsize=16)
+    else:
+        add("attribute-forms", attr_items, "none", bsize=16)
+        add("attribute-forms", attr_items, "zod", bsize=16)
+        add("attribute-forms", attr_items, "zod", via="driver", bsize=16)
     nonrust = [("non-rust-%d" % i, [("f.rs", t), ("ok.rs", "#[tauri::command]\npub fn ok_cmd() {}\n")]) for i, t in enumerate(NON_RUST)]
     add("non-rust", nonrust, "none", bsize=4)
     add("non-rust", nonrust, "zod", via="driver", bsize=4)
